@@ -4,7 +4,7 @@
    Values: any type with ring operations plus an inverse; everything numpy computes with
    floating point that is not a ring operation is an ORACLE argument:
      nrm  : np.linalg.norm(column, ord=normtype)          pos x : x > 0      neg x : x < 0
-     root : np.power(x, 1/N)                               leb   : <= used by np.argsort
+     root : np.power(x, 1/N)                               srt w : np.argsort(w)[::-1]
      negcol: sign of the entry of largest magnitude is -1  (fixsigns)
    Definitions only; proofs are in Proofs/C08Proofs.v. *)
 From Coq Require Import List Arith Lia Bool.
@@ -62,7 +62,8 @@ Definition k_redistribute (n : nat) (K : ktensor V) : ktensor V :=
 
 (* ---- normalize ---- *)
 Section Normalize.
-Variables (nrm : list V -> V) (pos neg : V -> bool) (root : V -> V) (leb : V -> V -> bool).
+(* srt w stands for np.argsort(w)[::-1] (numpy's sort is not stable on every platform: an oracle) *)
+Variables (nrm : list V -> V) (pos neg : V -> bool) (root : V -> V) (srt : list V -> list nat).
 
 (* normalize(mode=n): tmp = norm(A[:, r]); if tmp > 0: A[:, r] *= 1/tmp; weights[r] *= tmp *)
 Definition col_norms (A : mat) (R : nat) : list V := map (fun r => nrm (col A r)) (seq 0 R).
@@ -87,7 +88,7 @@ Definition k_absorb (wf : wfac) (K : ktensor V) : ktensor V :=
   | WAll => mkK (ones (kweights K)) (map (scale_cols (map root (kweights K))) (kfactors K))
   end.
 Definition k_sort (K : ktensor V) : ktensor V :=
-  if 1 <? krank K then k_gather (argsort_desc leb (kweights K)) K else K.
+  if 1 <? krank K then k_gather (srt (kweights K)) K else K.
 (* normalize(weight_factor, sort, normtype, mode): [nrm] is the norm of the requested type *)
 Definition k_normalize (wf : wfac) (sort : bool) (mode : option nat) (K : ktensor V) : ktensor V :=
   match mode with
@@ -98,7 +99,7 @@ Definition k_normalize (wf : wfac) (sort : bool) (mode : option nat) (K : ktenso
 (* arrange(weight_factor): normalize(); sort descending; optionally absorb into one factor *)
 Definition k_arrange (wf : option nat) (K : ktensor V) : ktensor V :=
   let K1 := k_normalize WNone false None K in
-  let K2 := k_gather (argsort_desc leb (kweights K1)) K1 in
+  let K2 := k_gather (srt (kweights K1)) K1 in
   match wf with None => K2 | Some n => k_redistribute n K2 end.
 
 (* tolist(mode) : normalize(weight_factor=mode) then the factor list;
